@@ -313,7 +313,8 @@ impl<'a> PatGen<'a> {
         let mut children: Vec<Child> = vec![];
         let mut anchor_last = false;
         let mut neg_fields = vec![];
-        let can_have_children = matches!(kind, Kind::Named(_) | Kind::WildNamed | Kind::Error | Kind::Super(..));
+        // (supertype child) has no documented meaning (the children of a supertype node are its subtypes): no children there
+        let can_have_children = matches!(kind, Kind::Named(_) | Kind::WildNamed | Kind::Error | Kind::Super(_, Some(_)));
         if can_have_children && depth < self.cfg.max_depth && !n.children.is_empty() {
             // choose an ordered subset of children
             let keep_n = t.weighted(&[25, 35, 25, 10, 5]);
@@ -334,7 +335,8 @@ impl<'a> PatGen<'a> {
             for (pos, &k) in idxs.iter().enumerate() {
                 let ci = n.children[k];
                 let cx = self.xt.nodes[ci].clone();
-                let item = self.from_node(t, ci, depth + 1, t.pct(70));
+                let capture_child = t.pct(70);
+                let item = self.from_node(t, ci, depth + 1, capture_child);
                 let item_named = match &item.pat {
                     Pat::Node { kind, .. } => !matches!(kind, Kind::Anon(_) | Kind::Wild | Kind::Missing(_)),
                     _ => false,
@@ -352,7 +354,7 @@ impl<'a> PatGen<'a> {
                     }
                 }
                 let field = match cx.field {
-                    Some(f) if t.pct(55) => self.lang.language.field_name_for_id(f).map(|s| s.to_string()),
+                    Some(f) if t.pct(80) => self.lang.language.field_name_for_id(f).map(|s| s.to_string()),
                     _ => None,
                 };
                 children.push(Child { anchor, field, item });
@@ -388,7 +390,9 @@ impl<'a> PatGen<'a> {
         }
         // alternation with a decoy (kept quantifier-free: plain node alternatives)
         if depth > 0 && t.pct(12) {
-            let decoy_i = t.below(self.xt.len());
+            // a plausible decoy: another child of the same parent (so the alternative is possible in this position)
+            let sibs: Vec<usize> = n.parent.map(|p| self.xt.nodes[p].children.clone()).unwrap_or_default();
+            let decoy_i = if sibs.is_empty() { i } else { *t.pick(&sibs) };
             let decoy = Item { pat: Pat::Node { kind: self.kind_of(decoy_i), children: vec![], anchor_last: false, neg_fields: vec![] }, quant: Quant::One, captures: vec![] };
             let caps = std::mem::take(&mut item.captures);
             let q = item.quant;
